@@ -165,6 +165,10 @@ class ExtSession:
                 sig = hext.OpDefSig(None, binary=True)
             else:
                 reqs = ch.subset(REQ_POOL, 1, 4, "sig-req")
+                if reqs and ch.coin(1, 4, "reqs-written-with-repeats"):
+                    # the same set written another way: a name repeated, not in sorted order
+                    reqs = [*reversed(reqs), reqs[ch.draw(len(reqs), "repeat-which")]]
+                    ctx.probe("requirement_list_with_a_repeated_name")
                 ft = tys.FunctionType([gen_type(ch, e, params) for _ in range(ch.draw(3, "n-in"))],
                                       [gen_type(ch, e, params) for _ in range(ch.draw(3, "n-out"))], list(reqs))
                 if len(set(reqs) | {e.name}) >= 2:
